@@ -4,4 +4,5 @@ import Solvor.Flow.EKLemmas
 import Solvor.Flow.EKArcs
 import Solvor.Flow.SSPLemmas
 import Solvor.Flow.AssignLemmas
+import Solvor.Flow.AssignBack
 /-! Flow: helper lemmas (collected from the files of this directory). -/
